@@ -11,9 +11,12 @@ if [ "${1:-}" = "-R" ]; then REV="-R"; shift; fi
 if [ ! -d $WT ]; then git -C /repo worktree add -q --detach $WT HEAD || exit 2; fi
 git -C $WT checkout -q --detach $(git -C /repo rev-parse HEAD) 2>/dev/null
 git -C $WT checkout -q -- . 
-git -C $WT apply $REV "$PATCH" || { echo "PATCH DOES NOT APPLY"; exit 2; }
+# patches are kept as written against the commit they were made on: fall back to a 3-way merge when /repo has moved on (a later fix: commit)
+git -C $WT apply $REV "$PATCH" 2>/dev/null || git -C $WT apply -3 $REV "$PATCH" >/dev/null 2>&1 || { echo "PATCH DOES NOT APPLY"; git -C $WT checkout -q -- . ; git -C $WT reset -q --hard; exit 2; }
+git -C $WT reset -q
 rc=0
 for p in "$@"; do
   DDO_REPO=$WT VERIF_EVIDENCE_DIR=${WT}-evid /verif/check $p quick 2>&1 | sed "s|$WT|<wt>|g" | grep -E "VIOLATION|KNOWN|^\[C|rule " | cut -c1-420
 done
 git -C $WT checkout -q -- .
+git -C $WT reset -q --hard 2>/dev/null
